@@ -23,3 +23,13 @@ pub mod alloc_steps {
     include!(concat!(env!("BROOD_VERIF_DIR"), "/harness/alloc_steps.rs"));
 }
 
+
+#[cfg(kani)]
+pub mod arch {
+    include!(concat!(env!("BROOD_VERIF_DIR"), "/harness/arch.rs"));
+}
+
+#[cfg(kani)]
+pub mod arch_steps {
+    include!(concat!(env!("BROOD_VERIF_DIR"), "/harness/arch_steps.rs"));
+}
